@@ -67,6 +67,12 @@ def allInb (a idx : List Int) : Bool := idx.all fun i => inb a i
 def gatherM (m : List (List Int)) (idx : List Int) : List (List Int) := idx.map fun i => getrow m i
 def allInbM (m : List (List Int)) (idx : List Int) : Bool := idx.all fun i => inbM m i
 
+/-- `np.split(a, idx)`: the pieces `a[:i0], a[i0:i1], …, a[ik:]` -/
+def npSplitFrom (a : List Int) (start : Nat) : List Int → List (List Int)
+  | [] => [a.drop start]
+  | i :: is => ((a.take i.toNat).drop start) :: npSplitFrom a i.toNat is
+def npSplit (a : List Int) (idx : List Int) : List (List Int) := npSplitFrom a 0 idx
+
 /-- `np.arange(len(mask))[mask]`: the positions at which a 0/1 mask is set -/
 def whereNZAux : Nat → List Int → List Int
   | _, [] => []
